@@ -22,7 +22,7 @@ func init() {
 		Title:     "Hand-written cache file codecs are wire-compatible with their protobuf schemas",
 		Run:       runC18,
 		Technique: "static analysis: writer/reader/schema table agreement — field-number/wire-type tables extracted from the hand-written decoders and tag constants compared with the generated struct tags; size-accounting pairing; encoder size/write component agreement",
-		Explanation: "(R1) each hand-written decoder (Array.UnmarshalVTNoAlloc, Item.UnmarshalVTNoAlloc, marshaller.unmarshalVT incl. its map-entry sub-decoder) dispatches on exactly the field numbers of the generated message, checks the wire type the schema implies and assigns the matching struct field; " +
+		Explanation: "(R1) each hand-written decoder (Array.UnmarshalVTNoAlloc, Item.UnmarshalVTNoAlloc, marshaller.unmarshalVT incl. its map-entry sub-decoder) dispatches on exactly the field numbers of the generated message, checks the wire type the schema implies and assigns the matching struct field, and the key/value of a map entry come from that entry alone (no decoding state carried from one entry to the next); " +
 			"(R2) the tag constants of the hand-written store encoder equal (field<<3)|wiretype of the schema, are written in the role they are named for, and the byte-size precomputation accounts exactly the components the writer emits; " +
 			"(R3) in unmarshalVT every map insertion is paired with dataSize += len(key)+len(value), the default marshaller returns that count, and the default marshaller is not one that reports a constant size; " +
 			"(R4) MarshalFast/UnmarshalFast use the Array message on both sides (standard MarshalVT ↔ no-alloc decoder) and rebuild the map keyed by BlockId.",
